@@ -971,7 +971,11 @@ def real_random_run(seed):
     time.sleep(r.random() * 0.15)
     wait = r.random() < 0.3
     t0 = time.time()
-    ex.shutdown(wait=wait)
+    raised = None
+    try:
+        ex.shutdown(wait=wait)
+    except Exception as e:  # noqa: BLE001  (F15: shutdown(wait=True) re-raises a job's exception)
+        raised = type(e).__name__
     t_ret = time.time() - t0
     time.sleep(0.1)
     alive_after = []
@@ -986,7 +990,7 @@ def real_random_run(seed):
         with contextlib.suppress(Exception):
             psutil.Process(pid).kill()
     return {"seed": seed, "n": n, "wait": wait, "results": [x if isinstance(x, str) else "ok" for x in results],
-            "counts": counts, "alive_after_shutdown": len(alive_after), "stuck": stuck, "shutdown_s": round(t_ret, 2),
+            "counts": counts, "shutdown_raised": raised, "alive_after_shutdown": len(alive_after), "stuck": stuck, "shutdown_s": round(t_ret, 2),
             "late_submit_ok": [j for j in range(n) if futs[j] is not None and results[j] != "rejected" and futs[j].start_time and futs[j].start_time > t0 + t_ret]}
 
 
@@ -1019,9 +1023,8 @@ def families(tier):
         fam += [([0, 0], [], 1, 0), ([0, 1], [0], 0, 0), ([0, 0], [1], 0, 0)]
     else:
         fam += [([0], [], 4, 15), ([1], [], 4, 15)]
-        fam += [([1], [0], 3, 15), ([1], [1], 3, 15), ([0], [0, 1], 2, 7), ([1], [0, 0], 2, 7), ([1], [1, 1], 2, 4)]
-        fam += [([0, 0], [], 2, 7), ([0, 1], [0], 2, 4), ([0, 1], [1], 2, 4), ([0, 0], [0], 2, 1), ([0, 0], [0, 1], 1, 0)]
-        fam += [([0, 0, 0], [0], 1, 0), ([0, 1, 0], [1], 1, 0), ([0, 0, 0], [], 1, 0)]
+        fam += [([1], [0], 3, 15), ([1], [1], 3, 15), ([0], [0, 1], 2, 0), ([1], [0, 0], 2, 0), ([1], [1, 1], 1, 4)]
+        fam += [([0, 0], [], 2, 0), ([0, 1], [0], 1, 0), ([0, 0], [1], 0, 7), ([0, 1], [0], 0, 4), ([1, 0], [1], 0, 4)]
     return fam
 
 
@@ -1123,7 +1126,7 @@ def run(rep, tier):
                 cases.append({"tmos": tm, "waits": wa, "sched": s, "maximal": True, "family": f"exh:{len(tm)}j{len(wa)}s"})
         # random deeper schedules
         rnd = [([0, 1], [0], 200, 3), ([0, 0], [1], 150, 3), ([1, 0], [0, 1], 100, 3)] if tier == "quick" else \
-              [([0, 1], [0], 3000, 4), ([0, 0], [1], 2000, 4), ([1, 0], [0, 1], 2000, 4), ([0, 1, 0], [0], 3000, 3), ([0, 0, 1], [1], 2000, 3), ([0, 1, 0], [0, 1], 2000, 3)]
+              [([0, 1], [0], 1500, 4), ([0, 0], [1], 1000, 4), ([1, 0], [0, 1], 1000, 4), ([0, 1, 0], [0], 1500, 3), ([0, 0, 1], [1], 1000, 3), ([0, 1, 0], [0, 1], 1000, 3)]
         for tm, wa, cnt, P_ in rnd:
             for s in random_schedules(exe, r, tm, wa, cnt, P_):
                 cases.append({"tmos": tm, "waits": wa, "sched": s, "maximal": True, "family": f"rnd:{len(tm)}j{len(wa)}s"})
@@ -1256,6 +1259,10 @@ def run(rep, tier):
             bad.append(("delivered-at-most-once", "set_result-twice"))
         if got["stuck"]:
             bad.append(("wait-returns", "waiter-stuck"))
+        if got["shutdown_raised"]:
+            rep.count("real_random", f"shutdown(wait={got['wait']}) raised {got['shutdown_raised']} [F15]")
+            if not got["wait"]:
+                bad.append(("shutdown-wait-returns", "shutdown-nowait-raised"))
         if got["alive_after_shutdown"] and not got["wait"]:
             # a child alive after shutdown(wait=False): F5/F6 windows are the known causes; cannot be told apart here
             rep.count("real_random", "child alive after shutdown(wait=False) [F5/F6 window]")
